@@ -177,6 +177,9 @@ func (e *scenarioEnv) runStep(step map[string]interface{}) interface{} {
 	}
 	fs.WriteOK = fs.MakePretender(opts.Pretend, false, nil)
 	fs.VerifHook = func(kind, arg string) error {
+		if kind == "proc-scan" {
+			return nil
+		}
 		nops++
 		oplog = append(oplog, []interface{}{kind, hx(e.unvirt(arg))})
 		if nops == crashAt {
@@ -200,7 +203,13 @@ func (e *scenarioEnv) runStep(step map[string]interface{}) interface{} {
 		}()
 		var err error
 		cmd := str(step["cmd"])
-		if cmd == "init" {
+		if cmd == "sysmount" {
+			// a mount made by the administrator, not by layercake
+			fl, _ := step["flags"].(float64)
+			err = e.kernel.mount(e.virt(args[0]), e.virt(args[1]), args[2], uintptr(fl), "")
+		} else if cmd == "sysumount" {
+			err = e.kernel.umount(e.virt(args[0]), 0)
+		} else if cmd == "init" {
 			err = manage.InitLayercakeBase(e.cfg)
 		} else {
 			var layers *manage.Layerdefs
